@@ -32,8 +32,12 @@ PRE_FRAGS = ["#", "define", "line", " ", " ", "\t", "\n", "\n", "\\\n", "X", "Y1
              "/*\n*/#line@"]
 
 
+PRE_FIXED = ["/*\n*/#line@7\nint y;", "/**/# 5", "/*\n*/#line@-1\n# 5\n", "/*\n*/#line@0x\n# 5", "/*\n*/#line@ +0_0 \n#line 3",
+             "/*\n*/#line@-2\n# 5\n", "# \\\n define \\\n X 1\n", "#define\\\nX 1", "#\\define X 1", "int\fx;\r\n#define Y 2\r\n"]
+
+
 def gen_regex_cases(ctx):
-    rng, out = ctx.rng, []
+    rng, out = ctx.rng, [dict(kind="pre", text=t) for t in PRE_FIXED]
     for _ in range(ctx.n(400, 7000)):
         a = rng.choice(REGEX_ALPHABETS)
         out.append(dict(kind="comment", text="".join(rng.choice(a) for _ in range(rng.randrange(0, 22)))))
